@@ -76,7 +76,7 @@ fn main() {
             "damage" => damage::replay(case),
             "c16" | "c16-stitched" => c16::replay(case),
             "c18" => c18::replay(case),
-            "c15" => c15::replay(case),
+            "c15" | "c15-route" => c15::replay(case),
             "delete" => c05::replay(case),
             "e3" => match case["check"].as_str().unwrap_or("") {
                 "C06" => c06::replay(case),
